@@ -1,6 +1,6 @@
 //! BLTE chunk data structures and compression modes
 
-use binrw::io::{Read, Seek, Write};
+use binrw::io::{Read, Seek, SeekFrom, Write};
 use binrw::{BinRead, BinResult, BinWrite};
 
 use super::error::{BlteError, BlteResult};
@@ -78,8 +78,22 @@ impl BinRead for ChunkData {
             err: Box::new(BlteError::UnknownCompressionMode(mode_byte)),
         })?;
 
-        // Read remaining data
+        // Read remaining data. The size comes from the chunk table, so bound the
+        // allocation by what the stream can still provide.
         let data_size = compressed_size - 1;
+        let pos = reader.stream_position()?;
+        let end = reader.seek(SeekFrom::End(0))?;
+        reader.seek(SeekFrom::Start(pos))?;
+        if data_size as u64 > end.saturating_sub(pos) {
+            return Err(binrw::Error::Custom {
+                pos,
+                err: Box::new(BlteError::InvalidChunk(format!(
+                    "chunk size {} exceeds remaining data ({} bytes)",
+                    compressed_size,
+                    end.saturating_sub(pos)
+                ))),
+            });
+        }
         let mut data = vec![0u8; data_size];
         reader.read_exact(&mut data)?;
 
